@@ -807,6 +807,11 @@ class Machine:
             return SymB({'eq': d == 0, 'ne': d != 0, 'gt': d > 0, 'ge': d >= 0, 'lt': d < 0, 'le': d <= 0}[base])
         # syntactic cancellation: identical / numerically constant difference decides without the solver
         dc = None
+        if A.t.eq(B.t) and A.err == B.err:
+            # the very same expression tree over the same inputs, evaluated by the same sequence of IEEE operations
+            # (terms are built, never rewritten): the two doubles are identical, whatever their rounding error
+            s.stats['cmp_identical_terms'] += 1
+            return int({'eq': True, 'ne': False, 'gt': False, 'ge': True, 'lt': False, 'le': True}[base])
         if A.t.eq(B.t): dc = Fraction(0)
         elif s.opts.get('cancel', True):
             d0 = z3.simplify(A.t - B.t, som=True)
